@@ -121,6 +121,14 @@ pub fn to_mesh(m: &M) -> Mesh {
     Mesh::new(v, m.f.clone(), false)
 }
 
+/// For the connectivity scenarios: the `is_solid` flag (how distance queries treat interior
+/// points) has no bearing on connectivity, open or closed; it is set on every other mesh, decided
+/// by the mesh's own counts so that it needs no entry in the scenario.
+fn to_mesh_any_flag(m: &M) -> Mesh {
+    let v: Vec<Point3> = m.v.iter().map(|p| Point3::new(p[0], p[1], p[2])).collect();
+    Mesh::new(v, m.f.clone(), (m.v.len() + m.f.len()) % 2 == 1)
+}
+
 pub fn from_mesh(mesh: &Mesh) -> M {
     M {
         v: mesh.vertices().iter().map(|p| [p.x, p.y, p.z]).collect(),
@@ -1104,7 +1112,7 @@ impl Property for C12 {
     fn execute(&self, sc: &Sc, sim: &Sim) -> Obs {
         match sc {
             Sc::Mesh { mesh, .. } => {
-                let built = sim.op("Mesh::new", 1_000_000, || to_mesh(mesh));
+                let built = sim.op("Mesh::new", 1_000_000, || to_mesh_any_flag(mesh));
                 match built {
                     OpResult::Done(me) => Obs::Mesh(Box::new(observe_mesh(sim, &me, false))),
                     OpResult::Panic(m) => Obs::Construct(m),
@@ -1113,14 +1121,14 @@ impl Property for C12 {
             }
             Sc::Big { kind, a, b } => {
                 let full = big_mesh(*kind, *a, *b);
-                match sim.op("Mesh::new", 1_000_000, || to_mesh(&full)) {
+                match sim.op("Mesh::new", 1_000_000, || to_mesh_any_flag(&full)) {
                     OpResult::Done(me) => Obs::Mesh(Box::new(observe_mesh(sim, &me, false))),
                     OpResult::Panic(m) => Obs::Construct(m),
                     OpResult::Budget(_) => Obs::Construct("budget".into()),
                 }
             }
             Sc::History { mesh, steps, .. } => {
-                let mut me = match sim.op("Mesh::new", 1_000_000, || to_mesh(mesh)) {
+                let mut me = match sim.op("Mesh::new", 1_000_000, || to_mesh_any_flag(mesh)) {
                     OpResult::Done(me) => me,
                     OpResult::Panic(m) => return Obs::Construct(m),
                     OpResult::Budget(_) => return Obs::Construct("budget".into()),
@@ -1130,7 +1138,7 @@ impl Property for C12 {
                 for s in steps {
                     let r = match s {
                         Step::Append(o) => {
-                            let other = to_mesh(o);
+                            let other = to_mesh_any_flag(o);
                             sim.op("Mesh::append", 1_000_000, || me.append(&other).map_err(|e| e.to_string())).map(|_| ())
                         }
                         Step::AppendBuilt(o, merge, delete) => {
@@ -1154,7 +1162,7 @@ impl Property for C12 {
                         }
                         Step::ForkAppend(a, b2) => {
                             let mut fork = me.clone();
-                            let (ma, mb) = (to_mesh(a), to_mesh(b2));
+                            let (ma, mb) = (to_mesh_any_flag(a), to_mesh_any_flag(b2));
                             let r1 = sim.op("Mesh::append", 1_000_000, || me.append(&ma).map_err(|e| e.to_string())).map(|_| ());
                             let r2 = sim.op("Mesh::append", 1_000_000, || fork.append(&mb).map_err(|e| e.to_string())).map(|_| ());
                             // the original first, then the clone, both alive
@@ -1184,7 +1192,7 @@ impl Property for C12 {
             }
             Sc::Sparse { mesh, ids, n_vertices, .. } => {
                 let full = expand_sparse(mesh, ids, *n_vertices);
-                match sim.op("Mesh::new", 1_000_000, || to_mesh(&full)) {
+                match sim.op("Mesh::new", 1_000_000, || to_mesh_any_flag(&full)) {
                     OpResult::Done(me) => Obs::Mesh(Box::new(observe_mesh(sim, &me, false))),
                     OpResult::Panic(m) => Obs::Construct(m),
                     OpResult::Budget(_) => Obs::Construct("budget".into()),
